@@ -25,7 +25,7 @@ establish those conditions as known facts at the call site.
 import ast
 import copy
 
-from .model import src, callee_name, dotted, walk_local, FUNC
+from .model import src, callee_name, dotted, walk_local, FUNC, calls_in
 
 INF = 10 ** 6
 NONNULL, NULL, MAYBE = "nonnull", "null", "maybe"
@@ -66,22 +66,117 @@ def skey(st):
 
 
 class Reader:
-    def __init__(self, fi):
+    """a function taking (text, ..., cursor): inside the analysis its text parameter is called `t` and its cursor parameter `i`
+    (self.node is a renamed clone when the source uses other names; self.iname is the real keyword callers may use)"""
+
+    def __init__(self, fi, tname="t", iname="i"):
         self.fi = fi
         self.name = fi.name
+        self.tname, self.iname = tname, iname
         p = fi.params()
-        self.params = [x for x in p if x not in ("self", "klong")]
+        self.params = ["t" if x == tname else "i" if x == iname else x for x in p if x not in ("self", "klong")]
         self.kind = None       # 'index' | 'pair' | 'peek'
+        self.node = fi.node
+        if (tname, iname) != ("t", "i"):
+            self.node = _canonical_names(fi.node, tname, iname)
+
+
+def _canonical_names(fnode, tname, iname):
+    """clone of fnode with the text parameter renamed to `t` and the cursor parameter to `i` (locals already called t / i move aside)"""
+    import copy as _copy
+    from .normalize import _clone
+    new = _clone(fnode)
+    mp = {tname: "t", iname: "i"}
+    taken = {n.id for n in ast.walk(new) if isinstance(n, ast.Name)} | {a.arg for a in new.args.posonlyargs + new.args.args + new.args.kwonlyargs}
+    for c in ("t", "i"):
+        if c in taken and c not in (tname, iname):
+            mp[c] = c + "__local"
+    for n in ast.walk(new):
+        if isinstance(n, ast.Name) and n.id in mp:
+            n.id = mp[n.id]
+        elif isinstance(n, ast.arg) and n.arg in mp:
+            n.arg = mp[n.arg]
+        elif isinstance(n, ast.keyword) and False:
+            pass
+    for parent in ast.walk(new):
+        for child in ast.iter_child_nodes(parent):
+            if not isinstance(child, (ast.expr_context, ast.boolop, ast.operator, ast.unaryop, ast.cmpop)):
+                child._parent = parent
+    new._parent = getattr(fnode, "_parent", None)
+    return new
+
+
+def _text_cursor_roles(f):
+    """(text parameter, cursor parameter) of a function that scans a text with an index, by what it does with them:
+    the text is indexed by / measured against the cursor (t[i], i < len(t)), or both are handed on to a function that does"""
+    p = [x for x in f.params() if x not in ("self", "klong")]
+    if len(p) < 2:
+        return None
+    cand_t, cand_i = p[0], p[1:3]
+    # a cursor is an integer position: it takes part in `+ constant` arithmetic somewhere in the function
+    arith = set()
+    for n in walk_local(f.node):
+        if isinstance(n, ast.BinOp) and isinstance(n.op, ast.Add) and isinstance(n.left, ast.Name) and isinstance(n.right, ast.Constant) and isinstance(n.right.value, int):
+            arith.add(n.left.id)
+        if isinstance(n, ast.AugAssign) and isinstance(n.op, ast.Add) and isinstance(n.target, ast.Name):
+            arith.add(n.target.id)
+    for n in walk_local(f.node):
+        if isinstance(n, ast.Subscript) and isinstance(n.ctx, ast.Load) and isinstance(n.value, ast.Name) and n.value.id == cand_t:
+            idx = n.slice
+            for x in ast.walk(idx):
+                if isinstance(x, ast.Name) and x.id in cand_i and x.id in arith:
+                    return cand_t, x.id
+        if isinstance(n, ast.Compare) and len(n.ops) == 1:
+            sides = [n.left, n.comparators[0]]
+            if any(isinstance(s_, ast.Call) and callee_name(s_) == "len" and s_.args and isinstance(s_.args[0], ast.Name) and s_.args[0].id == cand_t for s_ in sides):
+                for s_ in sides:
+                    for x in ast.walk(s_):
+                        if isinstance(x, ast.Name) and x.id in cand_i:
+                            return cand_t, x.id
+    return None
 
 
 def discover_readers(repo, modules=("parser", "interpreter")):
     out = {}
-    for f in repo.all_funcs(modules):
-        if f.parent is not None:
-            continue
+    funcs = [f for f in repo.all_funcs(modules) if f.parent is None and f.name != "__init__"]
+    roles = {}
+    for f in funcs:
         p = [x for x in f.params() if x not in ("self", "klong")]
-        if len(p) >= 2 and p[0] == "t" and "i" in p[1:3] and f.name != "__init__":
-            out[f.name] = Reader(f)
+        if len(p) >= 2 and p[0] == "t" and "i" in p[1:3]:
+            roles[f.name] = ("t", "i")
+        else:
+            r_ = _text_cursor_roles(f)
+            if r_:
+                roles[f.name] = r_
+    # functions that only pass (text, cursor) on to a reader in the reader's text/cursor positions
+    changed = True
+    while changed:
+        changed = False
+        for f in funcs:
+            if f.name in roles:
+                continue
+            p = [x for x in f.params() if x not in ("self", "klong")]
+            if len(p) < 2:
+                continue
+            for c in calls_in(f.node):
+                nm = callee_name(c)
+                if nm in roles and nm != f.name:
+                    g = next((g for g in funcs if g.name == nm), None)
+                    gp = [x for x in g.params() if x not in ("self", "klong")]
+                    off = 1 if (g.params()[:1] == ["klong"] and not isinstance(c.func, ast.Attribute)) else 0
+                    args = c.args[off:]
+                    ti, ii = gp.index(roles[nm][0]), gp.index(roles[nm][1])
+                    ta = args[ti] if ti < len(args) else None
+                    ia = args[ii] if ii < len(args) else next((k.value for k in c.keywords if k.arg == roles[nm][1]), None)
+                    if isinstance(ta, ast.Name) and ta.id == p[0] and ia is not None:
+                        base = ia.left if isinstance(ia, ast.BinOp) else ia
+                        if isinstance(base, ast.Name) and base.id in p[1:3]:
+                            roles[f.name] = (p[0], base.id)
+                            changed = True
+                            break
+    for f in funcs:
+        if f.name in roles:
+            out[f.name] = Reader(f, *roles[f.name])
     # kinds: pair readers return a 2-tuple (or another pair reader's result); peek helpers return a non-index value
     def rets(fn):
         out_ = []
@@ -104,7 +199,7 @@ def discover_readers(repo, modules=("parser", "interpreter")):
         for nm, r in out.items():
             if nm in pair:
                 continue
-            for v in rets(r.fi.node):
+            for v in rets(r.node):
                 if (isinstance(v, ast.Tuple) and len(v.elts) == 2) or (isinstance(v, ast.Call) and callee_name(v) in pair):
                     pair.add(nm)
                     changed = True
@@ -113,7 +208,7 @@ def discover_readers(repo, modules=("parser", "interpreter")):
         if nm in pair:
             r.kind = "pair"
         else:
-            vs = rets(r.fi.node)
+            vs = rets(r.node)
             # boolean predicates (cmatch, cmatch2) and value peeks (cpeek, cpeek2) are not index readers
             if vs and all(isinstance(v, (ast.BoolOp, ast.Compare)) for v in vs):
                 r.kind = "pred"
@@ -136,7 +231,7 @@ class Analyzer:
     def __init__(self, reader, readers, summ, preds, problems, entry_lt=False, summ_lt=None):
         self.r, self.readers, self.summ, self.preds, self.problems = reader, readers, summ, preds, problems
         self.entry_lt, self.summ_lt = entry_lt, (summ_lt if summ_lt is not None else {})
-        self.fn = reader.fi.node
+        self.fn = reader.node
         self.name = reader.name
         self.returns = []
         self.loops = []          # (node, ok, detail)
@@ -195,7 +290,7 @@ class Analyzer:
         except ValueError:
             pass
         for kw in call.keywords:
-            if kw.arg == "i":
+            if kw.arg == rd.iname:
                 argi = kw.value
         if argi is None:
             base, bname = Cur(0), None
